@@ -15,6 +15,7 @@ impl Check for C06 {
     }
     fn plan(&self, tier: Tier) -> Plan {
         let mut p = Plan::new(tier.pick(350_000, 35_000_000), tier.pick(30.0, 420.0));
+        p.mandatory = 1;
         p.cpu_budget_s = 60.0;
         p
     }
@@ -22,6 +23,42 @@ impl Check for C06 {
         chunk::selftest()
     }
     fn run_case(&self, _tier: Tier, k: u64, rng: &mut Rng, out: &mut Out) {
+        if k == 0 {
+            // large in-band chunk sizes x large messages (a foreign sender may send a 16 MiB
+            // message in one chunk after announcing a chunk size that allows it)
+            for (size, len) in [(0x80_0000u32, 0x80_0001usize), (0x80_0001, 0x80_0001), (0xFF_FFFF, 16_777_215), (0x7FFF_FFFF, 16_777_215), (0x100_0000, 9_000_000)] {
+                out.eval(1);
+                let mut enc = chunk::Encoder::new();
+                let scs = chunk::set_chunk_size_msg(size, 0);
+                let mut wire = enc.encode_simple(&scs, 2);
+                enc.chunk_size = size as usize;
+                let big = chunk::Msg { type_id: 9, msid: 1, ts: 7, data: (0..len).map(|i| (i >> 3) as u8 ^ i as u8).collect() };
+                let small = chunk::Msg { type_id: 8, msid: 1, ts: 9, data: vec![1, 2, 3] };
+                wire.extend(enc.encode_simple(&big, 6));
+                wire.extend(enc.encode_simple(&small, 4));
+                let want = vec![scs, big, small];
+                let scs_pos = vec![Some(size), None, None];
+                let mid = wire.len() / 2;
+                for parts in [vec![wire.len()], vec![mid, wire.len() - mid]] {
+                    match lib_call(out, "ChunkDeserializer::get_next_message", || json!({"chunk_size": size, "payload": len}), || lib_decode_partitioned(&wire, &parts, &scs_pos)) {
+                        Some(Ok(got)) if got == want => out.count("large_chunk_large_message_streams", 1),
+                        Some(Ok(got)) => {
+                            out.violation(
+                                &format!("conformant-stream-decoded-differently:{}", chunk::first_difference_class(&got, &want).unwrap_or("?")),
+                                json!({"in_band_chunk_size": size, "message_length": len, "difference": chunk::first_difference(&got, &want)}),
+                            );
+                            return;
+                        }
+                        Some(Err((e, got))) => {
+                            out.violation("deserializer-error-on-conformant-stream", json!({"in_band_chunk_size": size, "message_length": len, "error": e, "messages_before_error": got.len()}));
+                            return;
+                        }
+                        None => return,
+                    }
+                }
+            }
+            return;
+        }
         let cfg = ForeignCfg {
             max_msgs: 30,
             max_len: if k % 40 == 0 { 300_000 } else { 5000 },
@@ -102,7 +139,7 @@ impl Check for C06 {
         ]
     }
     fn required_counters(&self, _tier: Tier) -> Vec<String> {
-        let mut v = vec!["streams_decoded_exactly".to_string(), "zero_length_messages".into(), "in_band_chunk_size_changes".into(), "continuation_chunks_with_extended_timestamp".into()];
+        let mut v = vec!["streams_decoded_exactly".to_string(), "large_chunk_large_message_streams".to_string(), "zero_length_messages".into(), "in_band_chunk_size_changes".into(), "continuation_chunks_with_extended_timestamp".into()];
         for form in 1..=3 {
             for fmt in 0..4 {
                 for e in ["ext", "noext"] {
